@@ -48,6 +48,17 @@ pub trait Read: Sized {
 			(*old(self)).rest().len() < old(buf)@.len() ==> res is Err && (*final(self)).hit_eof(),
 	{ unimplemented!() }
 
+	// std::io::Read::read_to_end: appends everything that remains (repeated `read` until it returns 0).
+	// Always Ok in this model (a stream is a fixed byte sequence; I/O errors other than end-of-data are not modelled)
+	#[verifier::external_body]
+	fn read_to_end(&mut self, buf: &mut Vec<u8>) -> (res: std::result::Result<usize, IoError>)
+		requires (*old(self)).inv(),
+		ensures (*final(self)).inv(), (*final(self)).stable() == (*old(self)).stable(),
+			res is Ok, final(buf)@ == old(buf)@ + (*old(self)).rest() && (*final(self)).rest() == Seq::<u8>::empty()
+				&& (*final(self)).consumed() == (*old(self)).consumed() + (*old(self)).rest()
+				&& (*final(self)).hit_eof() == (*old(self)).hit_eof(),
+	{ unimplemented!() }
+
 	fn by_ref(&mut self) -> (r: &mut Self)
 		ensures *r == *old(self), *final(r) == *final(self)
 	{ self }
